@@ -933,11 +933,17 @@ class Vector():
 		# CASE B: Other is 2D (Table on Right)
 		# v + T -> [v+C1, v+C2, ...]
 		if isinstance(other, Vector) and other.ndims() == 2:
-			return other.copy(tuple(
+			# (each result column keeps its column's name, as in Table.__radd__ - which of the two
+			# runs depends only on whether self is a plain Vector or a typed subclass)
+			result_cols = tuple(
 				# recursive call: self + Column
 				self._elementwise_operation(col, op_func, op_name, op_symbol) 
 				for col in other.cols()
-			))
+			)
+			for orig_col, result_col in zip(other.cols(), result_cols):
+				result_col._name = orig_col._name
+				result_col._wild = orig_col._wild
+			return other.copy(result_cols)
 		
 		if isinstance(other, Vector):
 			if len(self) != len(other):
